@@ -54,7 +54,7 @@ theorem splice_before {α} (l A B : List α) (f1 t1 f2 t2 : Nat)
 
 /-! ### slices -/
 
-theorem Slice.toks_length_of_wf (sl : Slice) (hwf : sl.wf = true) :
+theorem Slice.toks_length_of_wf_ex (sl : Slice) (hwf : sl.wf = true) :
     (sl.toks.length : Int) = sl.size ∧ 0 ≤ sl.size := by
   have := wf_opens_le hwf
   simp only [Slice.toks, List.length_take, List.length_drop, ftoks_length, Slice.size]
